@@ -23,10 +23,10 @@ def shrink_candidates(line):
     head, ops = toks[:4], toks[4:]
     for i in range(len(ops)):
         yield " ".join(head + ops[:i] + ops[i + 1:])
-    script = [] if head[2] == "-" else head[2].split(",")
+    script = [] if head[2] == "." else head[2].split(",")
     for i in range(len(script)):
         rest = script[:i] + script[i + 1:]
-        yield " ".join([head[0], head[1], ",".join(rest) if rest else "-", head[3]] + ops)
+        yield " ".join([head[0], head[1], ",".join(rest) if rest else ".", head[3]] + ops)
     for i in range(len(script) - 1):
         t1, h1 = script[i].split("@"); t2, h2 = script[i + 1].split("@")
         merged = script[:i] + [f"{t1}@{h1}{h2}"] + script[i + 2:]
@@ -45,7 +45,7 @@ def shrink_candidates(line):
 def classify_common(line, obs):
     ks = []
     toks = line.split()
-    script = [] if toks[2] == "-" else toks[2].split(",")
+    script = [] if toks[2] == "." else toks[2].split(",")
     ks.append("pieces=%s" % ("0" if not script else "1" if len(script) == 1 else "2-5" if len(script) <= 5 else "6+"))
     ks.append("chunk=%s" % toks[0])
     for o in obs_ops(obs):
